@@ -136,8 +136,11 @@ def main():
             known_hits.append((hit[0], v))
         else:
             new_failing.append(v)
+    printed = set()
     for k, v in known_hits:
-        print("KNOWN-FINDING: property=%s %s" % (pid, k["what"]))
+        if k["key"] not in printed:   # one line per listed finding, however many inputs hit it
+            printed.add(k["key"])
+            print("KNOWN-FINDING: property=%s %s" % (pid, k["what"]))
 
     cov["evaluations"] = evaluations
     cov["distinct_nontrivial"] = nontrivial
